@@ -1,4 +1,4 @@
-//@@ unit props=C12,C19,C06,C10,C14,C16
+//@@ unit props=C12,C19,C06,C10,C14,C16,C02
 // Unit xlsstr: BIFF string readers of src/xls.rs across CONTINUE records (verbatim text).
 #![allow(unused_imports, dead_code, unused_variables, unused_mut, unused_assignments, unexpected_cfgs)]
 use vstd::prelude::*;
@@ -425,10 +425,10 @@ spec fn same_record(a: Record, b: Record) -> bool { a.typ == b.typ && (a.cont is
 //@@ endimpl
 
 #[verifier::loop_isolation(false)] // initial values of the `mut len`, `mut high_byte` parameters must stay known inside the loop
-//@@ fn src/xls.rs read_dbcs props=C12,C19 entry ret=res
+//@@ fn src/xls.rs read_dbcs props=C12,C19,C02 entry ret=res
 //@@ sig
     ensures
-        //# C12,C19.dbcs_concat
+        //# C12,C19,C02.dbcs_concat
         res is Ok ==> dbcs_spec(*encoding, frags(*old(r)), len as nat, high_byte) is Some
             && res->Ok_0@ == dbcs_spec(*encoding, frags(*old(r)), len as nat, high_byte)->Some_0.0,
         //# C12,C19.dbcs_cursor
@@ -488,7 +488,7 @@ spec fn same_record(a: Record, b: Record) -> bool { a.typ == b.typ && (a.cont is
 //@@ before /\} else \{/
                 proof {
                     let f2 = frags(*r);
-                    //# C12,C19.dbcs_continue_flag_byte
+                    //# C12,C19,C02.dbcs_continue_flag_byte
                     // the continuation's first byte is the flag byte: exactly one byte is consumed before the characters resume
                     assert(f2 =~= adv(next_frag(f1), 1));
                     assert(high_byte == (f1[1][0] & 1 != 0));
@@ -723,12 +723,12 @@ proof fn lemma_sst_items_back(e: XlsEncoding, f: Seq<Seq<u8>>, n: nat)
 mod m_parse_sst {
 use super::*;
 use super::super::*;
-//@@ fn src/xls.rs parse_sst props=C12,C19 entry ret=res
+//@@ fn src/xls.rs parse_sst props=C12,C19,C02 entry ret=res
 //@@ sig
     ensures
         //# C12.sst_len_guard
         old(r).data@.len() < 8 ==> res is Err,
-        //# C12,C19.sst_table
+        //# C12,C19,C02.sst_table
         sst_spec(*encoding, frags(*old(r))) is Some ==> res is Ok && texts(res->Ok_0@) == sst_spec(*encoding, frags(*old(r)))->Some_0,
         //# C19.sst_index
         sst_spec(*encoding, frags(*old(r))) is Some ==> res is Ok && res->Ok_0@.len() == sst_count(old(r).data@)
@@ -746,7 +746,7 @@ use super::super::*;
     let ghost f0 = frags(*r);
     let ghost e = *encoding;
     proof { lemma_frags_head(r0); }
-//@@ before /let len = /
+//@@ before /let len = read_u32/
     proof {
         assert(r.data@.subrange(4, 8) =~= r0.data@.subrange(4, 8));
         assert(0 <= le32(r0.data@.subrange(4, 8)) < 0x1_0000_0000);
